@@ -986,3 +986,13 @@ def const_label(F, body, op, depth=0):
     if rv['k'] == 'agg' and 'array' in rv:
         return ('array',) + tuple(o['c'].get('v') if 'c' in o else None for o in rv['ops'])
     return None
+
+
+def param_by_type(body, pattern, nth=0):
+    """Index (local) of the nth parameter whose type matches the regex; None if absent."""
+    hits = [p for p in range(1, body.argc + 1) if re.search(pattern, body.local_ty(p))]
+    return hits[nth] if len(hits) > nth else None
+
+
+def params_by_type(body, pattern):
+    return [p for p in range(1, body.argc + 1) if re.search(pattern, body.local_ty(p))]
